@@ -337,7 +337,8 @@ Record conn_good (k b : nat) (reqs : list req) (T : list event) : Prop := mkGood
     g_linked : P_linked T;
     g_error : forall i q, nth_error reqs i = Some q -> P_error_ex q (ex (b + i) T);
     g_skip : forall i q, nth_error reqs i = Some q -> P_skip_ex q (ex (b + i) T);
-    g_relay : forall i q, nth_error reqs i = Some q -> P_relay_ex q (ex (b + i) T) }.
+    g_relay : forall i q, nth_error reqs i = Some q -> P_relay_ex q (ex (b + i) T);
+    g_presented : count is_reqmod T = nread reqs }.
 
 Lemma negb_if_none {A} (c : bool) (x : A) (y : option A) :
   (if negb c then Some x else y) = None <-> c = true /\ y = None.
@@ -347,17 +348,17 @@ Lemma conn_fail_iff k b reqs T : conn_fail k b reqs T = None <-> conn_good k b r
 Proof.
   unfold conn_fail. rewrite !negb_if_none.
   rewrite scope_iff, cl_hijack_iff, cl_session_iff, cl_linked_iff.
-  unfold cl_reqmod, cl_resmod, cl_error, cl_skip, cl_relay. rewrite !per_req_iff.
+  unfold cl_reqmod, cl_resmod, cl_error, cl_skip, cl_relay, cl_presented. rewrite !per_req_iff, Nat.eqb_eq.
   split.
-  - intros [H1 [H2 [H3 [H4 [H5 [H6 [H7 [H8 [H9 _]]]]]]]]].
+  - intros [H1 [H2 [H3 [H4 [H5 [H6 [H7 [H8 [H9 [H10 _]]]]]]]]]].
     constructor; auto; intros i q Hn.
     + apply cl_reqmod_ex_iff. exact (H3 i q Hn).
     + apply cl_resmod_ex_iff, H4, Hn.
     + apply cl_error_ex_iff, H7, Hn.
     + apply cl_skip_ex_iff, H8, Hn.
     + apply cl_relay_ex_iff, H9, Hn.
-  - intros [H1 H2 H3 H4 H5 H6 H7 H8 H9].
-    refine (conj H1 (conj H2 (conj _ (conj _ (conj H5 (conj H6 (conj _ (conj _ (conj _ eq_refl)))))))));
+  - intros [H1 H2 H3 H4 H5 H6 H7 H8 H9 H10].
+    refine (conj H1 (conj H2 (conj _ (conj _ (conj H5 (conj H6 (conj _ (conj _ (conj _ (conj H10 eq_refl))))))))));
       intros i q Hn.
     + apply cl_reqmod_ex_iff. exact (H3 i q Hn).
     + apply cl_resmod_ex_iff, H4, Hn.
